@@ -551,7 +551,7 @@ def _pairs_model(chk, fi: FuncInfo, loop: ast.For) -> PairsModel:
         have = [k for v in sites.maps.values() for k in (v[3] if isinstance(v, tuple) and v[0] == "record" else (v if isinstance(v, list) else [v]))]
         if need not in have:
             raise NotReadable(f"no dictionary keyed by the point stores the {need} of a site")
-    ex = SX.Executor(nonnull=sites.nonnull, rewrite=sites.rewrite, helpers=new_helpers(chk.repo, fi))
+    ex = SX.Executor(nonnull=sites.nonnull, rewrite=lambda e: idioms(sites.rewrite(e)), helpers=new_helpers(chk.repo, fi))
     paths = ex.run(loop.body, constant_tuples(fi, loop))
     # lists the pair loop appends to: a local list, or a member of a local dict of lists (`contacts[kind].append(...)`)
     appended = sorted({e.recv for p in paths for e in p.effects if e.method == "append" and e.kind == "call" and e.recv.split("[")[0] in sites.nonnull and "." not in e.recv})
@@ -595,9 +595,29 @@ def _pairs_model(chk, fi: FuncInfo, loop: ast.For) -> PairsModel:
             hb = st.iter.id
             label_loop = st
             break
+    nbody = normalised(fi).node
     for st in after:
         if isinstance(st, ast.For) and isinstance(st.iter, ast.Call) and astq.callee_name(st.iter) == "most_common":
             select_loop = st
+        elif isinstance(st, ast.For):
+            # for x in takewhile(lambda item: P(item), C.most_common())  ==  for x in C.most_common(): if not P(x): break
+            it = st.iter
+            if isinstance(it, ast.Name):
+                d = [v for s2, v in astq.assignments(nbody, it.id) if v is not None]
+                it = d[0] if len(d) == 1 else it
+            if isinstance(it, ast.Call) and astq.callee_name(it) == "takewhile" and len(it.args) == 2 and isinstance(it.args[0], ast.Lambda) and len(it.args[0].args.args) == 1 and isinstance(it.args[1], ast.Call) and astq.callee_name(it.args[1]) == "most_common":
+                lam = it.args[0]
+                tgt_load = copy.deepcopy(st.target)
+                for x in ast.walk(tgt_load):
+                    if hasattr(x, "ctx"):
+                        x.ctx = ast.Load()
+                cond = SX.subst(lam.body, {lam.args.args[0].arg: tgt_load})
+                guard = ast.If(test=ast.UnaryOp(op=ast.Not(), operand=cond), body=[ast.Break()], orelse=[])
+                new = ast.For(target=st.target, iter=copy.deepcopy(it.args[1]), body=[guard] + list(st.body), orelse=[])
+                ast.copy_location(new, st)
+                for x in ast.walk(guard):
+                    ast.copy_location(x, st)
+                select_loop = ast.fix_missing_locations(new)
     if label_loop is not None:
         lp = [c.func.value.id for c in ast.walk(label_loop) if isinstance(c, ast.Call) and isinstance(c.func, ast.Attribute) and c.func.attr in ("append", "extend") and isinstance(c.func.value, ast.Name) and c.func.value.id in sites.nonnull]
         if len(set(lp)) == 1:
@@ -985,6 +1005,13 @@ class _Idioms(ast.NodeTransformer):
                 return ast.List(elts=[], ctx=ast.Load())
         if isinstance(n.func, ast.Attribute) and n.func.attr == "get" and len(n.args) == 2 and isinstance(n.args[1], ast.Constant) and n.args[1].value is None and not n.keywords:
             n.args = [n.args[0]]
+        # {a, b}.isdisjoint(X) / X.isdisjoint({a, b})  ==  a not in X and b not in X
+        if isinstance(n.func, ast.Attribute) and n.func.attr == "isdisjoint" and len(n.args) == 1 and not n.keywords:
+            lit = lambda e: isinstance(e, (ast.Set, ast.Tuple, ast.List)) and 0 < len(e.elts) <= 4 and not any(isinstance(x, ast.Starred) for x in e.elts)
+            members, other = (n.func.value, n.args[0]) if lit(n.func.value) else ((n.args[0], n.func.value) if lit(n.args[0]) else (None, None))
+            if members is not None and not lit(other):
+                tests = [ast.Compare(left=x, ops=[ast.NotIn()], comparators=[copy.deepcopy(other)]) for x in members.elts]
+                return tests[0] if len(tests) == 1 else ast.BoolOp(op=ast.And(), values=tests)
         return n
 
 
@@ -1237,6 +1264,21 @@ def check_selection(chk, fi: FuncInfo, m: PairsModel, fold, c: Dict[str, Any]) -
     nfi = normalised(fi)  # the loops of the model are statements of this copy
     inl = Inliner(nfi.node)
     src = inl.inline(sl.iter, sl)
+    mm = astq.match(src, "Counter(N_).most_common()")
+    if mm is not None and isinstance(mm["N_"], ast.Name) and mm["N_"].id != m.labels:
+        # another name for the list of labels: follow plain `a = b` bindings; if that does not lead to the list, the rule abstains
+        cur = mm["N_"].id
+        for _ in range(4):
+            d = [v for s2, v in astq.assignments(nfi.node, cur) if v is not None]
+            nxt = [v.id for v in d if isinstance(v, ast.Name)]
+            if cur == m.labels or not nxt:
+                break
+            cur = nxt[-1]
+        if cur == m.labels:
+            src = ast.parse(f"Counter({m.labels}).most_common()", mode="eval").body
+        else:
+            chk.error("select-source", fi.site(sl), f"selection iterates `{norm(src)}`; `{mm['N_'].id}` is not traced to the list the label loop fills (`{m.labels}`)")
+            return
     chk.expect(norm(src) == f"Counter({m.labels}).most_common()", "select-source", fi.site(sl), "candidates = Counter(labels).most_common(): every label with its contact count, best supported first", f"selection iterates `{norm(src)}`, not all labels with their counts", K(fi, "select-source"), found=norm(src))
     if not (isinstance(sl.target, ast.Tuple) and len(sl.target.elts) == 2 and isinstance(sl.target.elts[1], ast.Name)):
         raise NotReadable("selection loop target is not (label, count)")
@@ -1609,7 +1651,7 @@ def check_cis_trans(chk, fi: FuncInfo, fold, c: Dict[str, Any]) -> None:
     if len(params) != 2:
         raise NotReadable("detect_cis_trans does not take two residues")
     ri, rj = params
-    paths = SX.Executor(rewrite=idioms).run(fi.node.body)
+    paths = SX.Executor(rewrite=idioms, helpers=new_helpers(repo, fi)).run(fi.node.body)
     rets = [p for p in paths if p.exit in ("return", "fall")]
     letters_ret = {}
     stored = 0
@@ -1736,9 +1778,7 @@ def check_base_normal(chk, fi: FuncInfo) -> None:
     for p in paths:
         # decisions about the three reference atoms must be readable; the value matters only where all three were found
         # (where one is missing any value other than None is already the finding)
-        for k, v, node in p.conds:
-            if "find_atom" in k and unread(node):
-                raise NotReadable(f"base_normal_vector: `{k[:70]}` is not resolved to atoms fetched by constant names")
+        pass
     n_eval = 0
     problems: Dict[str, str] = {}
     for p in paths:
@@ -1757,6 +1797,10 @@ def check_base_normal(chk, fi: FuncInfo) -> None:
                 if not is_none:
                     problems.setdefault(f"{L}: {missing[0]} missing", f"returns `{norm(ret)[:90]}` instead of None")
                 continue
+            # from here on the decisions about the three reference atoms must be readable
+            for k, v, node in p.conds:
+                if "find_atom" in k and unread(node):
+                    raise NotReadable(f"base_normal_vector: `{k[:70]}` is not resolved to atoms fetched by constant names")
             if is_none:
                 why = [(k, v) for k, v, _ in p.conds if "one_letter_name" not in k][-1:] or "unconditionally"
                 problems.setdefault(f"{L}: no normal", f"returns None although {o}, {t1}, {t2} were not found missing (decision: {why})")
